@@ -1607,4 +1607,107 @@ example : (0:ℚ) ≤ 1 / 3 ∧ (1 / 3 + 1 / 3 : ℚ) ≤ 1 ∧ (0:ℚ) ≤ 1 / 
 example : (insertPoint₂ (1 / 3 : ℚ) (1 / 3) ⟨⟨0, 0⟩, ⟨1, 0⟩, ⟨0, 1⟩⟩).map cross = [1 / 3, 1 / 3, 1 / 3] := by
   norm_num [insertPoint₂, cross]
 
+/-! ### 3-D `transform_by` commutes with `Sum` / moving a Compound rigidly -/
+
+theorem movedTensor_zero (M : M3 K) (t : V3 K) : movedTensor sq M t 0 ⟨0, 0, 0⟩ mzero = mzero := by
+  rcases M with ⟨⟨m00, m01, m02⟩, ⟨m10, m11, m12⟩, ⟨m20, m21, m22⟩⟩
+  simp only [movedTensor, madd, steiner3, M3.mul, mtr, mulVec3, mzero]
+  congr 1 <;> congr 1 <;> ring
+
+/-- the totals of a family whose members are all moved by the same unit isometry -/
+theorem tot_transformBy (ps : List (MP3 K)) (m : Iso3 K) (hq : UnitQ (⟨m.qi, m.qj, m.qk, m.qw⟩ : Quat K)) :
+    let M := @Quat.toMat K (fieldNum K sq) ⟨m.qi, m.qj, m.qk, m.qw⟩
+    let ps' := ps.map fun p => @MP3.transformBy K (fieldNum K sq) p m
+    totMass3 ps' = totMass3 ps ∧
+    totF3 ps' = ⟨(mulVec3 M (totF3 ps)).x + totMass3 ps * m.t.x, (mulVec3 M (totF3 ps)).y + totMass3 ps * m.t.y,
+      (mulVec3 M (totF3 ps)).z + totMass3 ps * m.t.z⟩ ∧
+    totTensor3 sq ps' = movedTensor sq M m.t (totMass3 ps) (totF3 ps) (totTensor3 sq ps) := by
+  intro M ps'
+  induction ps with
+  | nil =>
+    refine ⟨rfl, ?_, ?_⟩
+    · simp [ps', totF3, totMass3, mulVec3]
+    · simp only [ps', totTensor3, totMass3, totF3, List.map_nil, List.sum_nil, msum, List.foldr_nil]
+      exact (movedTensor_zero sq M m.t).symm
+  | cons a l ih =>
+    obtain ⟨i1, i2, i3⟩ := ih
+    have ha := originTensor_transformBy sq a m hq
+    have ma : massOf3 (@MP3.transformBy K (fieldNum K sq) a m) = massOf3 a := rfl
+    have ca : (@MP3.transformBy K (fieldNum K sq) a m).com = @Iso3.act K (fieldNum K sq) m a.com := rfl
+    have hrot : @Iso3.rot K (fieldNum K sq) m a.com = mulVec3 M a.com := rot_eq_mulVec sq m hq a.com
+    have i2x : (totF3 (l.map fun p => @MP3.transformBy K (fieldNum K sq) p m)).x
+        = (mulVec3 M (totF3 l)).x + totMass3 l * m.t.x := by rw [i2]
+    have i2y : (totF3 (l.map fun p => @MP3.transformBy K (fieldNum K sq) p m)).y
+        = (mulVec3 M (totF3 l)).y + totMass3 l * m.t.y := by rw [i2]
+    have i2z : (totF3 (l.map fun p => @MP3.transformBy K (fieldNum K sq) p m)).z
+        = (mulVec3 M (totF3 l)).z + totMass3 l * m.t.z := by rw [i2]
+    refine ⟨?_, ?_, ?_⟩
+    · simp only [ps', totMass3, List.map_cons, List.sum_cons, ma] at i1 ⊢
+      rw [i1]
+    · simp only [totF3, mulVec3, totMass3] at i2x i2y i2z
+      simp only [ps', totF3, totMass3, List.map_cons, List.sum_cons, ma, ca, Iso3.act, hrot, V3.add, mulVec3]
+      congr 1
+      · linear_combination i2x
+      · linear_combination i2y
+      · linear_combination i2z
+    · simp only [ps', totTensor3, List.map_cons, msum, List.foldr_cons] at i3 ⊢
+      rw [i3, ha]
+      simp only [totMass3, totF3, List.map_cons, List.sum_cons]
+      exact (movedTensor_add sq M m.t (massOf3 a) _ ⟨a.com.x * massOf3 a, a.com.y * massOf3 a, a.com.z * massOf3 a⟩ _
+        (originTensor sq a) _).symm
+
+/-- **`transform_by` commutes with `Sum` in 3-D — a rigidly moved Compound**: for a unit rotation quaternion,
+`ps.sum().transform_by(m)` and `ps.map(|p| p.transform_by(m)).sum()` have the same mass, first moment and second-moment
+tensor about the origin (through both eigen-decompositions); with `compound3_moments`: moving every part of a Compound by
+`m` moves its mass properties by `m`. -/
+theorem transformBy3_sum (hs : LawfulSqrt sq) (eig : M3 K → V3 K × M3 K) (ps : List (MP3 K)) (h : ∀ a ∈ ps, 0 ≤ a.invMass)
+    (m : Iso3 K) (hq : UnitQ (⟨m.qi, m.qj, m.qk, m.qw⟩ : Quat K))
+    (hE : let I := (@MP3.sumRaw K (fieldNum K sq) ps).2.2
+      EigenDecomp sq I (eig I).1 (eig I).2 ∧ 0 ≤ (eig I).1.x ∧ 0 ≤ (eig I).1.y ∧ 0 ≤ (eig I).1.z)
+    (hE' : let I := (@MP3.sumRaw K (fieldNum K sq) (ps.map fun p => @MP3.transformBy K (fieldNum K sq) p m)).2.2
+      EigenDecomp sq I (eig I).1 (eig I).2 ∧ 0 ≤ (eig I).1.x ∧ 0 ≤ (eig I).1.y ∧ 0 ≤ (eig I).1.z) :
+    letI := fieldNum K sq
+    let l := (MP3.sum eig ps).transformBy m
+    let r := MP3.sum eig (ps.map fun p => p.transformBy m)
+    massOf3 l = massOf3 r ∧
+    l.com.x * massOf3 l = r.com.x * massOf3 r ∧ l.com.y * massOf3 l = r.com.y * massOf3 r ∧
+    l.com.z * massOf3 l = r.com.z * massOf3 r ∧ originTensor sq l = originTensor sq r := by
+  intro l r
+  obtain ⟨s1, s2, s3, s4, s5⟩ := sum3_full_moments sq hs eig ps h hE
+  have h' : ∀ a ∈ ps.map (fun p => @MP3.transformBy K (fieldNum K sq) p m), 0 ≤ a.invMass := by
+    intro a ha
+    simp only [List.mem_map] at ha
+    obtain ⟨p, hp, rfl⟩ := ha
+    exact h p hp
+  obtain ⟨g1, g2, g3, g4, g5⟩ := sum3_full_moments sq hs eig _ h' hE'
+  obtain ⟨t1, t2, t3⟩ := tot_transformBy sq ps m hq
+  have t2x := congrArg V3.x t2
+  have t2y := congrArg V3.y t2
+  have t2z := congrArg V3.z t2
+  simp only at t2x t2y t2z
+  have hl := originTensor_transformBy sq (@MP3.sum K (fieldNum K sq) eig ps) m hq
+  have ml : massOf3 l = massOf3 (@MP3.sum K (fieldNum K sq) eig ps) := rfl
+  have cl : l.com = @Iso3.act K (fieldNum K sq) m (@MP3.sum K (fieldNum K sq) eig ps).com := rfl
+  have hrot := rot_eq_mulVec sq m hq (@MP3.sum K (fieldNum K sq) eig ps).com
+  refine ⟨by rw [ml, s1, g1, t1], ?_, ?_, ?_, ?_⟩
+  · rw [g2, t2x, ml, cl]
+    simp only [Iso3.act, hrot, mulVec3, V3.add]
+    linear_combination (@Quat.toMat K (fieldNum K sq) ⟨m.qi, m.qj, m.qk, m.qw⟩).r0.x * s2
+      + (@Quat.toMat K (fieldNum K sq) ⟨m.qi, m.qj, m.qk, m.qw⟩).r0.y * s3
+      + (@Quat.toMat K (fieldNum K sq) ⟨m.qi, m.qj, m.qk, m.qw⟩).r0.z * s4 + m.t.x * s1
+  · rw [g3, t2y, ml, cl]
+    simp only [Iso3.act, hrot, mulVec3, V3.add]
+    linear_combination (@Quat.toMat K (fieldNum K sq) ⟨m.qi, m.qj, m.qk, m.qw⟩).r1.x * s2
+      + (@Quat.toMat K (fieldNum K sq) ⟨m.qi, m.qj, m.qk, m.qw⟩).r1.y * s3
+      + (@Quat.toMat K (fieldNum K sq) ⟨m.qi, m.qj, m.qk, m.qw⟩).r1.z * s4 + m.t.y * s1
+  · rw [g4, t2z, ml, cl]
+    simp only [Iso3.act, hrot, mulVec3, V3.add]
+    linear_combination (@Quat.toMat K (fieldNum K sq) ⟨m.qi, m.qj, m.qk, m.qw⟩).r2.x * s2
+      + (@Quat.toMat K (fieldNum K sq) ⟨m.qi, m.qj, m.qk, m.qw⟩).r2.y * s3
+      + (@Quat.toMat K (fieldNum K sq) ⟨m.qi, m.qj, m.qk, m.qw⟩).r2.z * s4 + m.t.z * s1
+  · have e : originTensor sq r = totTensor3 sq (ps.map fun p => @MP3.transformBy K (fieldNum K sq) p m) := g5
+    have e0 : originTensor sq (@MP3.sum K (fieldNum K sq) eig ps) = totTensor3 sq ps := s5
+    rw [e, t3, hl, e0, s2, s3, s4, s1]
+    try rfl
+
 end C13
